@@ -34,7 +34,7 @@ class BFSResult:
 
 
 def bfs(init, step, letters, observe, *, max_states=2_000_000, max_seconds=600.0, max_depth=None,
-        on_edge=None, pass_hw=False):
+        on_edge=None, pass_hw=False, prefixes=()):
     """``init``: (hw_state, obs_state).  ``letters(obs)`` -> iterable of input tuples.
     ``observe(obs, letter, outs)`` -> (err or None, obs').  ``on_edge(node, letter, outs, node2)``
     optional (graph bookkeeping for liveness checks)."""
@@ -47,6 +47,29 @@ def bfs(init, step, letters, observe, *, max_states=2_000_000, max_seconds=600.0
     depth = 0
     transitions = 0
     nodes_done = 0
+    # scripted prefixes ("start from non-initial states too"): each is walked from the initial node with the
+    # oracle checked on every step; the node it ends in joins the initial frontier (with parent pointers, so
+    # every later witness is still a complete trace from reset)
+    for script in prefixes:
+        node = init
+        for letter in script:
+            hw, obs = node
+            outs, hw2 = step(hw, letter)
+            if pass_hw:
+                err, obs2 = observe(obs, letter, outs, hw, hw2)
+            else:
+                err, obs2 = observe(obs, letter, outs)
+            transitions += 1
+            if err is not None:
+                r.violation = dict(err=err, trace=r.path(node) + [letter])
+                r.states = len(seen); r.transitions = transitions
+                return r
+            n2 = (hw2, obs2)
+            if n2 not in seen:
+                seen[n2] = (node, letter)
+            node = n2
+        if node not in frontier:
+            frontier.append(node)
     while frontier:
         if max_depth is not None and depth >= max_depth:
             r.capped = f"depth {max_depth}"
